@@ -12,6 +12,7 @@ func init() {
 	vfRegister("VfC07_getRIB_p", VfC07_getRIB_p)
 	vfRegister("VfC07_getRIB_p2", VfC07_getRIB_p2)
 	vfRegister("VfC07_getHistory", VfC07_getHistory)
+	vfRegister("VfC07_getRIB_eh", VfC07_getRIB_eh)
 }
 
 var vfAFTTypes = []spb.AFTType{spb.AFTType_ALL, spb.AFTType_IPV4, spb.AFTType_IPV6, spb.AFTType_MPLS, spb.AFTType_NEXTHOP, spb.AFTType_NEXTHOP_GROUP}
@@ -165,9 +166,11 @@ func vfGetRun(pre vfPreCfg, rich, fixLow bool) { vfGetRunP(pre, rich, fixLow, fa
 
 // vfGetRunP: payload adds the extended payload fields to every entry of the pre-state; reprogram > 0 re-ADDs
 // that many next-hops / top-level entries with a fresh payload before the Get ("what was LAST programmed").
-func vfGetRunP(pre vfPreCfg, rich, fixLow, payload bool, reprogram int) {
+func vfGetRunP(pre vfPreCfg, rich, fixLow, payload bool, reprogram int) { vfGetRunPE(pre, rich, fixLow, payload, false, reprogram) }
+
+func vfGetRunPE(pre vfPreCfg, rich, fixLow, payload, encap bool, reprogram int) {
 	r, ref := vfNewPair(true)
-	g := &vfGen{rich: rich, fixLow: fixLow, enums: rich, payload: payload, lean: reprogram > 0}
+	g := &vfGen{rich: rich, fixLow: fixLow, enums: rich, payload: payload, encap: encap, lean: reprogram > 0}
 	vfCanonical(r, ref, g, pre)
 	for i := 0; i < reprogram; i++ {
 		d := g.anyOf("re", 1, vfADD, vfREPLACE, []int{vfKNH, vfKMPLS})
@@ -282,4 +285,10 @@ func VfC07_getHistory() {
 	vfGetCheck(r, ref, ni, spb.AFTType_NEXTHOP)
 	vfGetCheck(r, ref, ni, spb.AFTType_MPLS)
 	vfReach("end")
+}
+
+// getRIB_eh: next-hops carrying encapsulation headers (MPLS stack + traffic class, UDPv6 with every field, two
+// headers in either index order): Get returns every header field for field, matched by index.
+func VfC07_getRIB_eh() {
+	vfGetRunPE(vfPreCfg{nNH: 1, nNHG: 1, members: 1}, false, true, true, true, 0)
 }
